@@ -80,7 +80,21 @@ def sever_scan(model, scope=SCOPE):
         for d in fi.decorators:
             if "no_grad" in d:
                 out.append((fi, fi.node, f"decorator @{d}", False, None))
+        def in_message(n):
+            """Inside a `raise` statement or a warning / log call: the value is text for a human and goes nowhere else."""
+            cur = pm.get(n)
+            while cur is not None:
+                if isinstance(cur, ast.Raise):
+                    return True
+                if isinstance(cur, ast.Call) and (astq.call_name(cur) or "").split(".")[-1] in ("warn", "warning", "info", "debug"):
+                    return True
+                if isinstance(cur, ast.stmt):
+                    return False
+                cur = pm.get(cur)
+            return False
         for n in own_nodes(fi.node):
+            if isinstance(n, (ast.Call, ast.Attribute)) and in_message(n):
+                continue
             if isinstance(n, ast.Call) and isinstance(n.func, ast.Attribute) and n.func.attr in SEVER_METHODS:
                 kind = f"`{ast.unparse(n)[:60]}`"
                 if n.func.attr == "detach" and _is_leafify(fi, n, pm):
